@@ -365,4 +365,83 @@ theorem faithful_smallInt (x : List Val) (B : Int) (N : Nat) (hB : 1 ≤ B) (hx 
             ((j : Int) - (i : Int)) (2 * B) ((N : Int) - 1) (by omega) (by omega) (by omega)
             (by omega) bk bj hPQ (by omega)
 
+/-! ### the constructor in `FIELD` arithmetic -/
+
+/-- the timings the constructor hands to the kernels -/
+def convTimings (rnd : ℚ → ℚ) (x : List Val) (tm : Option (List ℚ)) : List ℚ :=
+  match tm with
+  | some t => t.map rnd
+  | none => (defaultTimings x.length).map rnd
+
+theorem toField_length (rnd : ℚ → ℚ) (x : List Val) : (toField rnd x).length = x.length := by
+  simp [toField]
+
+/-- **natural graph: the constructor as compiled is the exact constructor on the data it stores**
+(the converted series and timings) whenever these are order-faithful -/
+theorem classLogR_natural (rnd : ℚ → ℚ) (x : List Val) (tm : Option (List ℚ)) (missing : Bool)
+    (hl : ∀ t, tm = some t → x.length ≤ t.length) (hf : FaithfulConv rnd x tm) :
+    classLogR rnd x tm missing false
+      = classLog (toField rnd x) (some (convTimings rnd x tm)) missing false := by
+  have hlen : x.length ≤ (convTimings rnd x tm).length := by
+    cases tm with
+    | none => simp [convTimings, defaultTimings]
+    | some t => simpa [convTimings] using hl t rfl
+  have hf' : Faithful rnd (toField rnd x) (convTimings rnd x tm) (toField rnd x).length := by
+    rw [toField_length]; cases tm <;> exact hf
+  have e : classLogR rnd x tm missing false
+      = kernelNR rnd (toField rnd x) (convTimings rnd x tm)
+          (if missing then some (nanMask (toField rnd x)) else none) (toField rnd x).length := by
+    cases tm <;> simp [classLogR, convTimings, toField_length]
+  rw [e, kernelNR_eq rnd _ _ _ _ (Nat.le_refl _) (by rw [toField_length]; exact hlen) hf']
+  simp [classLog]
+
+/-- horizontal graph: comparisons only, so the compiled constructor *is* the exact constructor on
+the converted series -/
+theorem classLogR_horizontal (rnd : ℚ → ℚ) (x : List Val) (tm : Option (List ℚ)) (missing : Bool) :
+    classLogR rnd x tm missing true = classLog (toField rnd x) tm missing true := by
+  simp [classLogR, classLog]
+
+theorem toField_fix (x : List Val) (h : ∀ r : ℚ, some r ∈ x → rndF32 r = r) :
+    toField rndF32 x = x := by
+  unfold toField
+  induction x with
+  | nil => rfl
+  | cons v l ih =>
+    rw [List.map_cons, ih (fun r hr => h r (List.mem_cons_of_mem _ hr))]
+    cases v with
+    | none => rfl
+    | some r => simp [h r List.mem_cons_self]
+
+theorem toField_intSeries (x : List Val) (hx : IntSeries x) : toField rndF32 x = x := by
+  apply toField_fix
+  intro r hr
+  obtain ⟨z, rfl, hz⟩ := hx r hr
+  exact rndF32_fix _ (isF32_int z (by omega))
+
+/-- `np.arange(N, dtype=FIELD)` is exact up to `2^24` samples -/
+theorem defaultTimings_fix (N : Nat) (hN : N ≤ 2 ^ 24) :
+    (defaultTimings N).map rndF32 = defaultTimings N := by
+  unfold defaultTimings
+  rw [List.map_map]
+  apply List.map_congr_left
+  intro k hk
+  rw [List.mem_range] at hk
+  simp only [Function.comp]
+  apply rndF32_fix _ (isF32_int _ _)
+  rw [abs_lt]; constructor <;> omega
+
+/-- **`VisibilityGraph(x)` on a small integer series, as compiled = the exact constructor** -/
+theorem classLogR_smallInt (x : List Val) (B : Int) (hB : 1 ≤ B) (hx : SmallInt x B)
+    (hBN : B * (x.length : Int) ≤ 2 ^ 22) (hI : IntSeries x) (missing : Bool) :
+    classLogR rndF32 x none missing false = classLog x none missing false := by
+  have hN : x.length ≤ 2 ^ 24 := by
+    have : (x.length : Int) ≤ 2 ^ 22 := by nlinarith
+    omega
+  have hf : FaithfulConv rndF32 x none := by
+    simp only [FaithfulConv, toField_intSeries x hI, defaultTimings_fix _ hN]
+    exact faithful_smallInt x B _ hB hx hBN
+  rw [classLogR_natural rndF32 x none missing (by intro t ht; cases ht) hf]
+  simp only [convTimings, toField_intSeries x hI, defaultTimings_fix _ hN]
+  rfl
+
 end Pyunicorn.Visibility
